@@ -117,6 +117,25 @@ fn convert(entry: u32, input: &str, st: &Settings, ow: f32, oh: f32) -> String {
         2 => svgbob::to_svg_string_compressed(input),
         3 => svgbob::to_svg_with_settings(input, st),
         4 => svgbob::to_svg_with_override_size(input, st, ow, oh),
+        6 => {
+            // a CellBuffer that was converted once, then edited through its public map interface so that it
+            // holds the cells of another document (input = first "\u{1e}" second), then converted again:
+            // the second conversion must be the conversion of the second document
+            let (first, second) = input.split_once('\u{1e}').unwrap_or(("", input));
+            let mut cb = svgbob::CellBuffer::from(first);
+            let (first_node, _, _): (svgbob::Node<()>, f32, f32) = cb.get_node_with_size(st);
+            let mut sink = String::new();
+            first_node.render(&mut sink).expect("must render");
+            let other = svgbob::CellBuffer::from(second);
+            cb.clear();
+            for (cell, ch) in other.iter() {
+                cb.insert(*cell, *ch);
+            }
+            let (node, _, _): (svgbob::Node<()>, f32, f32) = cb.get_node_with_size(st);
+            let mut buffer = String::new();
+            node.render(&mut buffer).expect("must render");
+            buffer
+        }
         _ => {
             // one CellBuffer rendered twice: first with other settings (scale `ow`, switches inverted), then
             // with the requested ones; what the second render returns must not depend on the first
